@@ -656,6 +656,16 @@ func historySubjects(all bool) []*subject {
 			}
 		}
 		for _, mask := range masks {
+			// tensors of element types the model file cannot carry (complex, string) stay caller inputs
+			skip := false
+			for k, pidx := range pos {
+				if dt := rc.Inputs[pidx].DT; mask&(1<<k) != 0 && (dt == ref.C64 || dt == ref.C128 || dt == ref.Str) {
+					skip = true
+				}
+			}
+			if skip {
+				continue
+			}
 			oc := rc.opCase()
 			oc.Route = "model"
 			oc.Dyn = true // symbolic dims: a tensor of another extent reaches the operator instead of being stopped by the signature check
